@@ -175,6 +175,11 @@ impl ClusterSim {
         ClusterSim { world, broker: SimBroker::new(Arc::new(broker)), cfg: cfg.clone(), proxies, opts: opts.clone() }
     }
 
+    /// A coordinator view onto an existing world (proxies already created) with another broker.
+    pub fn with_world(world: World, counts: &[usize], cfg: &BrokerCfg, opts: &ProxyOpts, broker: Broker) -> ClusterSim {
+        ClusterSim { world, broker: SimBroker::new(Arc::new(broker)), cfg: cfg.clone(), proxies: ip_layout(counts), opts: opts.clone() }
+    }
+
     pub fn apply(&self, op: &Op) -> String {
         self.broker.broker.apply(op)
     }
